@@ -1380,6 +1380,301 @@ impl Write for StdFile {
     }
 }
 
+/**
+Verification hooks.
+
+This module is only compiled with `--cfg emit_rs_emit_verif`. It exposes public mirrors of the private filesystem traits and a wrapper that runs the real background worker over an injected filesystem, clock, and source of randomness, so its behavior can be checked against a specification under injected IO faults.
+
+Nothing in here changes the behavior of the crate.
+*/
+#[cfg(emit_rs_emit_verif)]
+pub mod verif {
+    use super::*;
+
+    /**
+    A public mirror of the private filesystem abstraction used by the worker.
+    */
+    pub trait VerifFilesystem {
+        /**
+        Create a directory and all its parents.
+        */
+        fn create_dir_all(&self, path: &Path) -> io::Result<()>;
+
+        /**
+        Sync the directory containing `path`.
+        */
+        fn sync_parent(&self, path: &Path) -> io::Result<()>;
+
+        /**
+        List the files in a directory.
+        */
+        fn read_dir_files(&self, path: &Path) -> io::Result<Vec<PathBuf>>;
+
+        /**
+        Delete a file.
+        */
+        fn remove_file(&self, path: &Path) -> io::Result<()>;
+
+        /**
+        Exclusively create a new file for appending.
+        */
+        fn open_new(&self, path: &Path) -> io::Result<Box<dyn VerifFile + Send + Sync>>;
+
+        /**
+        Open an existing file for appending.
+        */
+        fn open_existing(&self, path: &Path) -> io::Result<Box<dyn VerifFile + Send + Sync>>;
+    }
+
+    /**
+    A public mirror of the private file abstraction used by the worker.
+    */
+    pub trait VerifFile {
+        /**
+        Write some prefix of `buf`, returning the number of bytes written.
+        */
+        fn write(&mut self, buf: &[u8]) -> io::Result<usize>;
+
+        /**
+        Flush any buffered bytes.
+        */
+        fn flush(&mut self) -> io::Result<()>;
+
+        /**
+        The length of the file in bytes.
+        */
+        fn len(&self) -> io::Result<usize>;
+
+        /**
+        Sync the content of the file.
+        */
+        fn sync_all(&mut self) -> io::Result<()>;
+    }
+
+    struct FilesystemAdapter<F>(F);
+
+    impl<F: VerifFilesystem> Filesystem for FilesystemAdapter<F> {
+        fn create_dir_all(&self, path: &Path) -> io::Result<()> {
+            self.0.create_dir_all(path)
+        }
+
+        fn sync_parent(&self, path: &Path) -> io::Result<()> {
+            self.0.sync_parent(path)
+        }
+
+        fn read_dir_files(&self, path: &Path) -> io::Result<Box<dyn Iterator<Item = PathBuf>>> {
+            Ok(Box::new(self.0.read_dir_files(path)?.into_iter()))
+        }
+
+        fn remove_file(&self, path: &Path) -> io::Result<()> {
+            self.0.remove_file(path)
+        }
+
+        fn open_new(&self, path: &Path) -> io::Result<Box<dyn File + Send + Sync>> {
+            Ok(Box::new(FileAdapter(self.0.open_new(path)?)))
+        }
+
+        fn open_existing(&self, path: &Path) -> io::Result<Box<dyn File + Send + Sync>> {
+            Ok(Box::new(FileAdapter(self.0.open_existing(path)?)))
+        }
+    }
+
+    struct FileAdapter(Box<dyn VerifFile + Send + Sync>);
+
+    impl Write for FileAdapter {
+        fn write(&mut self, buf: &[u8]) -> io::Result<usize> {
+            self.0.write(buf)
+        }
+
+        fn flush(&mut self) -> io::Result<()> {
+            self.0.flush()
+        }
+    }
+
+    impl File for FileAdapter {
+        fn len(&self) -> io::Result<usize> {
+            self.0.len()
+        }
+
+        fn sync_all(&mut self) -> io::Result<()> {
+            self.0.sync_all()
+        }
+    }
+
+    /**
+    The rollover period of a [`VerifWorker`].
+    */
+    #[derive(Debug, Clone, Copy)]
+    pub enum VerifRollBy {
+        /**
+        See [`FileSetBuilder::roll_by_day`].
+        */
+        Day,
+        /**
+        See [`FileSetBuilder::roll_by_hour`].
+        */
+        Hour,
+        /**
+        See [`FileSetBuilder::roll_by_minute`].
+        */
+        Minute,
+    }
+
+    /**
+    A batch of formatted events, as built by the channel feeding the worker.
+
+    The batch is only manipulated through the same [`emit_batcher::Channel`] operations the real sender uses.
+    */
+    pub struct VerifBatch(EventBatch);
+
+    impl VerifBatch {
+        /**
+        Create an empty batch.
+        */
+        pub fn new() -> Self {
+            VerifBatch(<EventBatch as emit_batcher::Channel>::new())
+        }
+
+        /**
+        Push a formatted event, through [`emit_batcher::Channel::push`].
+        */
+        pub fn push(&mut self, buf: Vec<u8>) {
+            emit_batcher::Channel::push(&mut self.0, buf.into_boxed_slice())
+        }
+
+        /**
+        Clear the batch, through [`emit_batcher::Channel::clear`] (this is what the sender does on overflow).
+        */
+        pub fn clear(&mut self) {
+            emit_batcher::Channel::clear(&mut self.0)
+        }
+
+        /**
+        The number of events still to write, through [`emit_batcher::Channel::len`].
+        */
+        pub fn len(&self) -> usize {
+            emit_batcher::Channel::len(&self.0)
+        }
+
+        /**
+        The events still to write.
+        */
+        pub fn remaining(&self) -> Vec<Vec<u8>> {
+            self.0
+                .bufs
+                .iter()
+                .skip(self.0.index)
+                .map(|buf| buf.to_vec())
+                .collect()
+        }
+
+        /**
+        The number of bytes the batch believes are still to write.
+        */
+        pub fn remaining_bytes(&self) -> usize {
+            self.0.remaining_bytes
+        }
+    }
+
+    /**
+    The result of [`VerifWorker::on_batch`].
+    */
+    pub enum VerifOutcome {
+        /**
+        The batch was reported as written.
+        */
+        Ok,
+        /**
+        The batch failed; the contained remainder should be retried.
+        */
+        Retry(VerifBatch),
+        /**
+        The batch failed and should not be retried.
+        */
+        NoRetry,
+    }
+
+    /**
+    The real background worker over an injected environment.
+    */
+    pub struct VerifWorker {
+        worker: Worker,
+        metrics: Arc<InternalMetrics>,
+    }
+
+    impl VerifWorker {
+        /**
+        Create a worker. The arguments are the ones [`FileSetBuilder::spawn`] derives from its configuration.
+        */
+        pub fn new(
+            fs: impl VerifFilesystem + Send + Sync + 'static,
+            clock: impl Clock + Send + Sync + 'static,
+            rng: impl Rng + Send + Sync + 'static,
+            dir: String,
+            file_prefix: String,
+            file_ext: String,
+            roll_by: VerifRollBy,
+            reuse_files: bool,
+            max_files: usize,
+            max_file_size_bytes: usize,
+            separator: &'static [u8],
+        ) -> Self {
+            let metrics = Arc::new(InternalMetrics::default());
+
+            let worker = Worker::new(
+                metrics.clone(),
+                FilesystemAdapter(fs),
+                clock,
+                rng,
+                dir,
+                file_prefix,
+                file_ext,
+                match roll_by {
+                    VerifRollBy::Day => RollBy::Day,
+                    VerifRollBy::Hour => RollBy::Hour,
+                    VerifRollBy::Minute => RollBy::Minute,
+                },
+                reuse_files,
+                max_files,
+                max_file_size_bytes,
+                separator,
+            );
+
+            VerifWorker { worker, metrics }
+        }
+
+        /**
+        Run the real `Worker::on_batch` on a batch.
+        */
+        pub fn on_batch(&mut self, batch: VerifBatch) -> VerifOutcome {
+            match self.worker.on_batch(batch.0) {
+                Ok(()) => VerifOutcome::Ok,
+                Err(err) => match err.into_retryable() {
+                    Some(batch) => VerifOutcome::Retry(VerifBatch(batch)),
+                    None => VerifOutcome::NoRetry,
+                },
+            }
+        }
+
+        /**
+        The values of the `file_create` and `file_delete` metrics.
+        */
+        pub fn file_create_delete(&self) -> (usize, usize) {
+            (
+                self.metrics.file_create.sample(),
+                self.metrics.file_delete.sample(),
+            )
+        }
+    }
+
+    /**
+    Split a file set template into the directory, file prefix, and file extension the worker is given.
+    */
+    pub fn dir_prefix_ext(file_set: impl AsRef<Path>) -> Result<(String, String, String), Error> {
+        super::dir_prefix_ext(file_set)
+    }
+}
+
 #[cfg(test)]
 mod tests {
     use super::*;
